@@ -108,6 +108,7 @@ class Built(Proxy):
 
 
 SCOPE_REPLAY = '''import sys; sys.path.insert(0, %(repo)r)
+sys.setrecursionlimit(400)
 from supp.assistant import location
 from supp.linter import lint
 from supp.project import Project
@@ -121,6 +122,11 @@ src2 = "def g():\\n    x = 1\\n    def f():\\n        nonlocal x\\n        print
 r = [t[:2] for t in lint(p, src2)]
 if r:
     bad.append(('nonlocal x; print(x); x = 2', r))
+try:
+    r = lint(p, "global x\\nx = 1\\nprint(x)\\n")
+    if r: bad.append(('module-level global declaration', [t[:2] for t in r]))
+except RecursionError as e:
+    bad.append(('module-level `global x`', 'RecursionError'))
 if bad:
     print('REPRODUCED: %%r' %% (bad,)); sys.exit(1)
 print('not reproduced')
@@ -195,13 +201,20 @@ def parent_names_entry(run, twin=None):
     class Top(object):
         names = toptab
 
-    for kind in ('function', 'class', 'no-parent'):
+    class SelfTop(object):
+        @property
+        def names(self):
+            raise LookupError('the entry table of the module consults the module table it is part of (unbounded recursion)')
+
+    for kind in ('function', 'class', 'no-parent', 'module'):
         def body(kind=kind):
             run.case = kind
-            cls = Sm.ClassScope if kind == 'class' else Sm.FuncScope
+            class ModSc(Sm.SourceScope):
+                names = SelfTop.names
+            cls = Sm.ClassScope if kind == 'class' else ModSc if kind == 'module' else Sm.FuncScope
             sc = cls.__new__(cls)
             sc.parent = None if kind == 'no-parent' else Parent()
-            sc.top = Top()
+            sc.top = Top() if kind != 'module' else sc
             sc.locals = SymSet(fl.local, 'locals')
             sc.globals = SymSet(fl.glob, 'globals')
             sc.nonlocals = SymSet(fl.nonloc, 'nonlocals')
@@ -217,7 +230,7 @@ def parent_names_entry(run, twin=None):
 
         def on_path(p, out, kind=kind):
             if out[0] != 'ok':
-                prove('no-exception(%s)' % type(out[1]).__name__, False, path=p)
+                prove('no-exception(%s)' % type(out[1]).__name__, False, clause='the entry table is computed without raising [%s]' % (out[1],), path=p)
                 return
             r = out[1]
             if kind == 'no-parent':
@@ -244,6 +257,10 @@ def parent_names_entry(run, twin=None):
                 return
             else:
                 prove('function-entry-is-a-table', False, path=p)
+                return
+            if kind == 'module':
+                # module level: a `global` declaration changes nothing; module names shadow the builtins
+                prove('module-entry-is-builtins-minus-module-names', has == z3.And(fl.outer_has, z3.Not(fl.local)), path=p)
                 return
             want_module = fl.glob
             want_has = z3.If(fl.glob, fl.top_has, z3.If(fl.local, z3.BoolVal(False), fl.outer_has))
@@ -331,6 +348,7 @@ def scope_names(run):
 
     class Par(object):
         names = ptbl
+        flow = type('F', (), {'names': object()})()      # the parent's own region table: NOT what a class scope exposes
 
     class Self(object):
         flow = Fl()
@@ -362,6 +380,7 @@ def global_nonlocal_decl(run):
                 scope = Sc()
                 _names = []
             v.flow = Fl()
+            v.top = object()
             node = getattr(ast, kind)(names=['a', 'b'])
             ok = True
             try:
@@ -370,4 +389,28 @@ def global_nonlocal_decl(run):
                 ok = False
             prove('%s-declaration-recorded' % kind.lower(), ok and getattr(Sc, attr) == {'a', 'b'} and not Fl._names,
                   clause='%s declaration recorded on the scope, no binding created' % kind.lower(), path=path)
+    core.explore(lambda: None, lambda p, out: go(p))
+
+
+@harness(['C05', 'C01'], 'supp.nast.extract_visitor.visit_Global[module level]')
+def global_at_module_level(run):
+    """`global x` at module level changes nothing: x stays an ordinary module binding (visible to the reads that follow it)"""
+    import supp.nast as N
+    run.concretise = scope_witness
+
+    def go(path):
+        v = N.extract_visitor()
+
+        class Sc(object):
+            globals = set()
+            nonlocals = set()
+        sc = Sc()
+
+        class Fl(object):
+            scope = sc
+            _names = []
+        v.flow = Fl()
+        v.top = sc
+        v.visit(ast.Global(names=['a']))
+        prove('module-level-global-records-nothing', sc.globals == set(), clause='a module-level global declaration does not reroute bindings', path=path)
     core.explore(lambda: None, lambda p, out: go(p))
